@@ -33,7 +33,7 @@ class C16(Prop):
             tasks = []
             for t in range(nt):
                 u = rng.random()
-                kind = 'raise' if u < pr else 'code' if u < pr + pc else 'ok'
+                kind = 'raise' if u < pr else 'code' if u < pr + pc else 'num' if rng.random() < 0.12 else 'ok'
                 tk = {'tid': t, 'kind': kind, 'dur': rng.choice([0.0, 0.001, 0.005, 0.02]) * (0.2 if nt > 50 else 1), 'size': rng.choice([0, 10, 1000, 200000])}
                 if kind == 'ok' and rng.random() < 0.4:
                     tk['lnpdf'] = {'values': [rng.uniform(-50, 0), float('-inf'), rng.uniform(-5, 5)], 'dV': rng.choice([1, 0.5, 2.0, 1e-3])}
@@ -111,11 +111,12 @@ class C16(Prop):
                 rows.append((int(t[0]), t[1], t[2], t[3], t[4]))
         rows.sort(key=lambda r: r[0])
         kinds = {t['tid']: t['kind'] for t in case['tasks']}
-        kcode = {'ok': 0, 'raise': 1, 'code': 2}
+        kcode = {'ok': 0, 'raise': 1, 'code': 2, 'num': 0}
         nw = case['workers']
         slot_of, owner, shadow = {}, [None] * nw, ['i'] * nw
         last_task = {}
         code_ready = []
+        num_ready = {}
         ev = []
         closed = False
         for _ts, pid, op, qid, payload in rows:
@@ -135,6 +136,9 @@ class C16(Prop):
                         ev.append('C %d' % int(payload[3:]))
                     elif payload.startswith('exc:'):
                         ev.append('C %d' % int(payload.split('=')[1]))
+                    elif payload.startswith('num:'):
+                        q_ = num_ready.get(payload, [])
+                        ev.append('C %d' % (q_.pop(0) if q_ else 999999))
                     elif payload.startswith('code:'):
                         if code_ready:
                             ev.append('C %d' % code_ready.pop(0))
@@ -176,6 +180,8 @@ class C16(Prop):
                         shadow[w] = 'i'
                     if k is not None and kinds[k] == 'code':
                         code_ready.append(k)
+                    if k is not None and kinds[k] == 'num':
+                        num_ready.setdefault(payload, []).append(k)
         return ev
 
     def requests(self, case, impl):
@@ -206,14 +212,18 @@ class C16(Prop):
         nwk = int(t[p])
         states = t[p + 1:p + 1 + nwk]
         real = [r['tid'] for r in impl['returned']]
+        knd = {t['tid']: t['kind'] for t in case['tasks']}
+        collected = [None if knd.get(t) == 'num' else t for t in collected]      # numeric results carry no task id
         if collected != real:
             out.append(('results handed to the caller: model %r, implementation %r' % (collected, real), None))
         if nj != impl['number_jobs']:
             out.append(('number_jobs: model %d, implementation %d' % (nj, impl['number_jobs']), None))
         if ntask or nres:
             out.append(('model ends with %d queued tasks and %d uncollected results' % (ntask, nres), None))
-        if any(s in ('i', 'r') for s in states) != any(impl['alive_after_close']):
-            out.append(('worker liveness after close: model %r, implementation %r' % (states, impl['alive_after_close']), None))
+        # liveness after close is judged on the implementation (oracle key 'close'): a worker that is terminated between taking its
+        # pill and writing the log line leaves the replayed model with an idle slot, which is an artefact of the logging
+        if any(s == 'r' for s in states) and not any(impl['alive_after_close']):
+            out.append(('worker state after close: the model still has a running task %r, every implementation worker has ended' % (states,), None))
         return out
 
     # ------------------------------------------------------------------ oracle
@@ -230,10 +240,15 @@ class C16(Prop):
         out = []
         kinds = {t['tid']: t for t in case['tasks']}
         real = impl['returned']
-        expect = sorted(t['tid'] for t in case['tasks'] if t['kind'] != 'code')
+        expect = sorted(t['tid'] for t in case['tasks'] if t['kind'] not in ('code', 'num'))
         got = sorted(r['tid'] for r in real if r['tid'] is not None)
-        if any(r['tid'] is None for r in real):
-            out.append(('foreign-result', 'a value that is no task result was returned: %r' % [r for r in real if r['tid'] is None][:2], None))
+        if any(r['tid'] is None and r.get('type') != 'num' for r in real):
+            out.append(('foreign-result', 'a value that is no task result was returned: %r' % [r for r in real if r['tid'] is None and r.get('type') != 'num'][:2], None))
+        for v in (10.0, 20.0):
+            want = sum(1 for t in case['tasks'] if t['kind'] == 'num' and (10.0 if t['tid'] % 2 else 20.0) == v)
+            have = sum(1 for r in real if r.get('type') == 'num' and r.get('value') == v)
+            if want != have:
+                out.append(('numeric-result', '%d tasks returned the number %r as their result, %d such results were delivered' % (want, v, have), None))
         if got != expect:
             missing = sorted(set(expect) - set(got))
             dup = sorted({x for x in got if got.count(x) > 1})
